@@ -181,6 +181,8 @@ def main():
     new_viol = [v for sig, v in sorted(viols.items()) if sig not in known]
     known_hit = [v for sig, v in sorted(viols.items()) if sig in known]
     exhaustive = bool(sums) and all(s.get("exhaustive") for s in sums)
+    if conf.get("exhaustive_if_probes"):
+        exhaustive = all(probes.get(p, 0) > 0 for p in conf["exhaustive_if_probes"])
     ev = {
         "property_id": prop, "tier": tier, "seed": seed_int, "level": conf["level"],
         "coverage": {
